@@ -76,7 +76,7 @@ def _(
     if dim and dim != data_frame.shape[1]:
         raise ValueError(f"Invalid dim {data_frame.shape[1]}, {dim} expected.")
     if dropna:
-        array_mask = data_frame.isna().any().values
+        array_mask = ~data_frame.isna().any(axis=1).values
         data_frame = data_frame.dropna()
     else:
         array_mask = None
